@@ -274,6 +274,13 @@ def run_verus_unit(unit, repo, work, seed, tier, features=None, tag="", rlimit=3
         rc, summary, diags, raw, wall, cmd = run_verus(rs, seed, rlimit)
         gen_text = open(rs).read()
         fails, und = classify(mp, gen_text, diags)
+    # call-site census: a call of a guarded function from a function that is not under contract is an obligation nobody discharges
+    for c in mp.get("census", []):
+        if not c["ok"]:
+            fails.append(dict(function=f"census::{c['callee']}", repo_file=c["offenders"][0].split(":")[0], repo_line=int(c["offenders"][0].split(":")[1].split()[0]),
+                              props=c["props"], clause=c["name"], clause_owner=None, clause_text="call sites outside functions under contract: " + "; ".join(c["offenders"]),
+                              clause_src_line=None, strength="property", prelude_clause=None, site="; ".join(c["offenders"]),
+                              _census=True, message="precondition of " + c["callee"] + " is not discharged at a call site outside the functions under contract", rendered=""))
     for sf in mp.get("shape_failures", []):
         und = und + [sf + " (a syntactic shape the contract relies on for something the verifier cannot see: drop order, panic containment)"] if not fails else und
     res["failures"], res["undecided"] = fails, und
@@ -466,6 +473,10 @@ def main(argv):
                 for c in f["clauses"][:2]:
                     if len(samples) < 12:
                         samples.append(dict(obligation=f"{r['unit']}/{f['key']}/{c['name']}", kind=c["kind"], text=c["text"][:300]))
+        for c in mp.get("census", []):
+            if prop in c["props"] and (not r["tag"] or r["tag"] == "@0"):
+                n_clauses += 1
+                samples.append(dict(obligation=f"{r['unit']}/census::{c['callee']}/{c['name']}", kind="call-site census", text="discharged call sites: " + "; ".join(c["sites"])))
         n_vac += len([v for v in r["vacuity"] if v["verdict"] == "reachable"])
         # lemmas of the unit's prelude (protocol lemmas, lemmas over extracted constants) are obligations too
         n_lemmas += len([fb for fb in r["fn_breakdown"] if fb["mode"] == "proof" and fb["success"]])
@@ -479,7 +490,7 @@ def main(argv):
             if fl["function"] in shifted:
                 undecided.append(f"[{r['unit']}] {fl['function']} has more loops than at baseline: loop contracts may be attached to the wrong loop (lost anchor), not a violation")
                 continue
-            if unchanged:
+            if unchanged and not fl.get("_census"):
                 undecided.append(f"[{r['unit']}] {fl['function']}/{fl['clause'] or 'body'} failed although every extracted item and the unit files equal the committed baseline: solver instability (seed {seed}), not a violation")
                 continue
             if fl["strength"] == "beyond-property":
